@@ -12,8 +12,9 @@ open Aw
 theorem floorMs_of_dvd {t : Int} (h : 1000 ∣ t) : floorMs t = t := by
   unfold floorMs; omega
 
-/-- a sqlite row with ms-aligned non-negative start and end before 2^32 s decodes to itself -/
-theorem sqliteDecode_id {D} (e : Ev D) (h0 : 0 ≤ e.ts) (hms : 1000 ∣ e.ts) (hd : 0 ≤ e.dur)
+/-- a sqlite row with ms-aligned start after −2^32 s (1833; in particular every instant whose
+    wall-clock date is in 1970 at some UTC offset) and end before 2^32 s decodes to itself -/
+theorem sqliteDecode_id {D} (e : Ev D) (h0 : -4294967296000000 < e.ts) (hms : 1000 ∣ e.ts) (hd : 0 ≤ e.dur)
     (h1 : e.ts + e.dur < 4294967296000000) : sqliteDecode e = e := by
   obtain ⟨i, t, d, x⟩ := e
   simp only at h0 hms hd h1
